@@ -1,7 +1,7 @@
 (* C02: emitted rows always agree with the emitted descriptor. *)
-From Coq Require Import List ZArith Bool.
+From Coq Require Import List ZArith Bool Permutation.
 From DF Require Import Base.Str Base.ListX Base.Value Proc.RowOps Proc.RowOps_proofs Proc.Fields Proc.Fields_proofs Proc.Resources Proc.Resources_proofs
-     Proc.Validate Proc.Validate_proofs Proc.Join Frame.WF Gen.Consts Base.Lits.
+     Proc.Validate Proc.Validate_proofs Proc.Join Proc.ConcatSchema_proofs Frame.WF Gen.Consts Base.Lits.
 Import ListNotations.
 Open Scope Z_scope.
 
@@ -68,6 +68,16 @@ Proof. vm_compute. repeat split; reflexivity. Qed.
 Print Assumptions C02_join_declared_types_fit.
 
 (* the executable check used on the implementation's output is sound for the property *)
+(* concatenate, for every field specification it accepts, every selection and all rows: each emitted row carries exactly
+   the fields the target's descriptor declares, and the target's primary key names declared fields *)
+Theorem C02_concatenate_rows_agree_with_descriptor : forall fields m selected rows out,
+  build_mapping fields [] = Ok m ->
+  concat_rows m (map fst fields) rows = Ok out ->
+  let sch := concat_schema m (map fst fields) selected in
+  Forall (fun o => Permutation (rkeys o) (map fst (fst sch))) out /\ incl (snd sch) (map fst (fst sch)).
+Proof. exact concat_target_agrees. Qed.
+Print Assumptions C02_concatenate_rows_agree_with_descriptor.
+
 Theorem C02_check_sound : forall p, pkg_wf_b p = true -> pkg_wf p.
 Proof. exact pkg_wf_b_sound. Qed.
 Print Assumptions C02_check_sound.
